@@ -202,6 +202,44 @@ def fixed_definitions():
     return out
 
 
+WIDER = {"uchar": ["uint", "ulong", "uint64"], "uint": ["ulong", "uint64"], "ulong": ["uint64"], "char": ["int", "long", "int64"],
+         "int": ["long", "int64"], "long": ["int64"], "float": ["double"]}
+
+
+def widened(decls, rng):
+    """a copy of the declaration list in which one scalar has a wider type of the same signedness (every value that
+    conforms to the original conforms to the copy), or None"""
+    d = json.loads(json.dumps(decls))
+    spots = []
+
+    def visit(t):
+        if t["k"] in ag.SCALARS:
+            if t["k"] in WIDER:
+                spots.append(t)
+            return
+        if t.get("ref"):
+            return
+        if t["k"] == "struct":
+            for m in t["ms"]:
+                if not (m["t"]["k"] == "char" and m["dims"]):
+                    visit(m["t"])
+        elif t["k"] in ("ts", "tu"):
+            for g in t["tags"]:
+                if g["hasdef"] and not (g["m"]["t"]["k"] == "char" and g["m"]["dims"]):
+                    visit(g["m"]["t"])
+    for x in d:
+        m = x["t"] if x["d"] == "type" else x["m"]["t"]
+        if x["d"] == "block" and x["m"]["t"]["k"] == "char" and x["m"]["dims"]:
+            continue
+        visit(m)
+    if not spots:
+        return None
+    t = rng.choice(spots)
+    t["k"] = rng.choice(WIDER[t["k"]])
+    ok, ty = ag.resolve(d)
+    return d if ok and ag.unambiguous(ty) else None
+
+
 def build_plan(tier, rng):
     plan = Plan()
     ndefs = 60 if tier == "quick" else 10000
@@ -238,6 +276,13 @@ def build_plan(tier, rng):
             plan.add_doc(prev, decls, mixed, rng.random() < 0.3, f"def{di}/builtin+other-infile")
         for b in single:
             plan.add_doc(decls, None, [b], False, f"def{di}/single-{b['what']}")
+        # two definitions that both accept the content but type it differently (a scalar widened): the built-in one is
+        # tried first, in either assignment
+        wide = widened(decls, rng)
+        if wide is not None and di % 2 == 0:
+            conf = [dict(b) for b in blocks if b["what"] == "conforming"][:6]
+            plan.add_doc(wide, decls, conf, False, f"def{di}/builtin+widened-infile")
+            plan.add_doc(decls, wide, conf, False, f"def{di}/widened-builtin+infile")
         # content that no definition describes
         if di % 5 == 0:
             raw = [{"site": ag.SITES[(di + i) % 11], "conf": False, "what": "undescribed",
